@@ -37,7 +37,13 @@ def r_conversion(run, tree):
     af.check_to_fold(run, tree)
 
 
-RULES = [r_conversion, r1_delegation, r2_gates, r3_equality]
+def r_norm_corners(run, tree):
+    run.rule("C20.R5", "Datagroup equality reduces the element-wise != of Vector members through .norm: defined for boolean components, truthy exactly where a component differs (shared with C09.R9)", "D7 fold of Vector.norm over small concrete vectors", "", floor=4)
+    from . import quantity_stack as qs
+    qs.check_norm_corner_cases(run, tree)
+
+
+RULES = [r_conversion, r1_delegation, r2_gates, r3_equality, r_norm_corners]
 
 
 def t_history_space(run, tree):
